@@ -1944,7 +1944,7 @@ fn main() {
                 let under_contract = |name: &str| -> bool {
                     contract_names.contains(name) || spec.rules.call.contains_key(name) || tmpl_text.contains(&format!("fn {}(", name)) || tmpl_text.contains(&format!("fn {}<", name))
                 };
-                let extra_files: Vec<SourceFile> = ["src/scheduler/queue_state.rs"].iter().filter(|f| **f != spec.file.as_str() && std::path::Path::new(&format!("{}/{}", repo, f)).exists()).map(|f| SourceFile::load(&repo, f)).collect();
+                let extra_files: Vec<SourceFile> = ["src/scheduler/queue_state.rs", "src/scheduler/job_queue.rs"].iter().filter(|f| **f != spec.file.as_str() && std::path::Path::new(&format!("{}/{}", repo, f)).exists()).map(|f| SourceFile::load(&repo, f)).collect();
                 let inl = inline_helpers(base, &extra_files, &spec.func, spec.closure, &spec.lift, &under_contract, &mut notes);
                 let src: &SourceFile = match &inl { Some((f, _)) => f, None => base };
             let found = find_fn(&src.ast, &spec.func);
